@@ -338,6 +338,32 @@ theorem seeded_cache_violates_scratch_ok :
     K (Gen.cfg false false) seededScratch 6 ⟨2, 2⟩ = some 3 := by
   decide +kernel
 
+/-- the program of seeded change C08_12: `Q2` names qubit 3, which is freed, and re-allocated through
+`Q2` after a carbon–carbon gate with no new `set` (legal: `qfree` does not write its register) -/
+def freeThenRealloc : List Instr := [
+  ⟨"core.SetInstruction", [qreg 2, .imm 3]⟩, ⟨"core.QAllocInstruction", [qreg 2]⟩,
+  ⟨"core.InitInstruction", [qreg 2]⟩, ⟨"vanilla.GateHInstruction", [qreg 2]⟩,
+  ⟨"core.SetInstruction", [qreg 0, .imm 1]⟩, ⟨"core.SetInstruction", [qreg 1, .imm 2]⟩,
+  ⟨"core.QFreeInstruction", [qreg 2]⟩,
+  ⟨"vanilla.CnotInstruction", [qreg 0, qreg 1]⟩,
+  ⟨"core.QAllocInstruction", [qreg 2]⟩, ⟨"core.InitInstruction", [qreg 2]⟩,
+  ⟨"vanilla.GateXInstruction", [qreg 2]⟩]
+
+/-- why `scratch_ok` excludes the seeded change "release a Q register for scratch use once its qubit
+is freed": the program is inside `QStatic` (a `qfree` closes no window: at the carbon–carbon gate,
+position 7, and after it `Q2` is still known to hold 3 and is read by the `qalloc` at 8); the pass
+borrows `Q3`, and `Q2` is among the registers named before the gate. A model that dropped `Q2` from
+the used set at the `qfree` would borrow `Q2`, for which `r ∉ …flatMap topRegs` and
+`K cfg S (p + 1) r = none` of `scratch_ok` are false. -/
+theorem seeded_qfree_register_live :
+    QStatic (Gen.cfg false false) freeThenRealloc = true ∧
+    getUnused ((freeThenRealloc.take 8).flatMap topRegs) = .ok ⟨2, 3⟩ ∧
+    (⟨2, 2⟩ : Reg) ∈ (freeThenRealloc.take 8).flatMap topRegs ∧
+    K (Gen.cfg false false) freeThenRealloc 7 ⟨2, 2⟩ = some 3 ∧
+    K (Gen.cfg false false) freeThenRealloc 8 ⟨2, 2⟩ = some 3 ∧
+    getUnused (((freeThenRealloc.take 8).flatMap topRegs).filter (· != ⟨2, 2⟩)) = .ok ⟨2, 2⟩ := by
+  decide +kernel
+
 /-- **transpile_simulates (partial: under `QStatic`)**. Every finite execution of the vanilla
 subroutine from `s0` to `(pc, s)` is matched by an execution of the serialised NV subroutine from
 the same `s0` to `(index_changes pc, u)` — pc correspondence through the index map — with
